@@ -132,7 +132,9 @@ Inductive op :=
 | Enc (b : bool)            (* link layer: the link became encrypted / unencrypted *)
 | Key (ediv rand : N)       (* link layer: find_key( ediv, rand ) for LL_ENC_REQ *)
 | Status                    (* local_device_pairing_status() and the link's pairing_status() *)
-| Reset (a : N).            (* new connection (fresh connection data) from the peer with address byte a *)
+| Reset (a : N)             (* new connection (fresh connection data) from the peer with address byte a *)
+| Bond (a ediv rnd kb : N). (* the application's bond data base already holds (gets) a bond for peer a under
+                               (ediv, rnd) with the key kb kb .. kb - e.g. from an earlier life of the device *)
 
 Inductive out :=
 | OResp (b : list N) (ev : list event)    (* PDU to send ([] = none) and the callbacks made *)
@@ -541,6 +543,8 @@ Definition step (c : smcfg) (s : state) (o : op) : state * out :=
   | Key ediv rnd => (s, OKey (find_key c s ediv rnd))
   | Status => (s, OStatus (local_status c s) (link_status s))
   | Reset a => (new_connection s a, ODone)
+  | Bond a ediv rnd kb =>
+      (set_bonds s (db_store D (bonds s) (remote_addr a) (repeat (kb mod 256) 16) rnd ediv), ODone)
   end.
 
 Fixpoint run (c : smcfg) (s : state) (ops : list op) : list (op * out) :=
